@@ -45,7 +45,7 @@ MUTATING_RETURNING = {
 # hand-outs that reach *inside an element* of the collection they are called on
 ELEMENT_HANDOUT = {'get_mut', 'iter_mut', 'values_mut', 'get_disjoint_mut', 'get_many_mut', 'index_mut',
                    'first_mut', 'last_mut', 'get_unchecked_mut', 'get', 'iter', 'values', 'index',
-                   'first', 'last', 'get_unchecked', 'entry', 'chunks_mut', 'split_at_mut'}
+                   'first', 'last', 'get_unchecked', 'entry', 'chunks_mut', 'split_at_mut', 'into_iter', 'drain'}
 
 
 def is_handout(name, dest_ty=None):
